@@ -483,3 +483,59 @@ def np_nan_to_num(interp, a, copy=True, nan=0.0, posinf=None, neginf=None):
         return V.f_ite(V.zbool(V.f_isnan(x)), float(nan), x)
 
     return T.tunary(fn, a)
+
+
+@lib("numpy.cumsum")
+def np_cumsum(interp, a, axis=None, dtype=None):
+    """Running sum of a vector of concrete length (bools count as 0/1)."""
+    a = _a(a)
+    if axis is None:
+        a = T.reshape(a, [-1])
+    if a.rank != 1 or not isinstance(a.shape[0], int):
+        raise Unsupported("cumsum on rank-%d / symbolic-length array" % a.rank)
+    rd = a.reader()
+    out, acc = [], None
+    dt = INT if a.dtype in (INT, BOOL) else FLOAT
+    for i in range(a.shape[0]):
+        x = T.cast_scalar(rd([i]), dt)
+        acc = x if acc is None else (V.i_add(acc, x) if dt == INT else V.f_add(acc, x))
+        out.append(acc)
+    return T.from_flat([a.shape[0]], out, dt, kind="numpy")
+
+
+@lib("numpy.searchsorted")
+def np_searchsorted(interp, a, v, side="left", sorter=None):
+    """numpy docs: for a sorted 1-D array `a`, the index i with a[i-1] < v <= a[i] (side='left')
+    or a[i-1] <= v < a[i] (side='right').  Decided by path forks over the concrete-length array
+    (the result is a concrete index on each path).  An unsorted `a` is outside the contract."""
+    a = _a(a)
+    if sorter is not None or a.rank != 1 or not isinstance(a.shape[0], int):
+        raise Unsupported("searchsorted on rank-%d / symbolic-length array or with a sorter" % a.rank)
+    n = a.shape[0]
+    rd = a.reader()
+    for i in range(n - 1):
+        x, y = rd([i]), rd([i + 1])
+        le = V.f_le(x, y) if a.dtype == FLOAT else V.i_le(x, y)
+        if not interp.path.provable(le):
+            raise Unsupported("searchsorted: the array is not provably sorted")
+
+    def one(val):
+        for i in range(n):
+            x = rd([i])
+            if a.dtype == FLOAT:
+                stop = V.f_le(val, x) if side == "left" else V.f_lt(val, x)
+            else:
+                stop = V.i_le(val, x) if side == "left" else V.i_lt(val, x)
+            if interp.truth(stop):
+                return i
+        return n
+
+    if not isinstance(v, STensor):
+        return one(v)
+    if not all(isinstance(d, int) for d in v.shape):
+        raise Unsupported("searchsorted of a symbolic number of values")
+    vr = v.reader()
+    import itertools as _it
+
+    flat = [one(vr(list(ix))) for ix in _it.product(*[range(d) for d in v.shape])]
+    return T.from_flat(list(v.shape), flat, INT, kind="numpy")
